@@ -96,47 +96,112 @@ Json::Value genC14(Rng& rng) {
     plan["initial_files"].append(f);
   }
   int nops = (int)rng.range(1, 10);
-  int64_t t = (int64_t)interval * 1000000000LL + rng.range(0, 999) * 1000000;
-  for (int i = 0; i < nops; i++) {
+  const int64_t ivNs = (int64_t)interval * 1000000000LL;
+  int64_t t = ivNs + rng.range(0, 999) * 1000000;
+  auto snapToTick = [&]() { t = (t + ivNs - 1) / ivNs * ivNs; };
+  auto pickKind = [&]() -> std::string {
+    return rng.chance(0.65) ? (rng.chance(0.8) ? "valid" : "with-action")
+                            : rng.pick(invalidKinds);
+  };
+  auto addOp = [&](const std::string& o, const std::string& name,
+                   const std::string& kind) {
     Json::Value op(Json::objectValue);
-    double u = rng.unit();
-    op["name"] = kNames[rng.below(6)];
-    std::string kind = rng.chance(0.65)
-        ? (rng.chance(0.8) ? "valid" : "with-action")
-        : rng.pick(invalidKinds);
+    op["op"] = o;
+    op["name"] = name;
     op["kind"] = kind;
     op["version"] = ++version;
-    if (u < 0.3)
-      op["op"] = "write"; // create/overwrite, possibly in several writes
-    else if (u < 0.45)
-      op["op"] = "rewrite"; // O_TRUNC and write
-    else if (u < 0.6)
-      op["op"] = "rename-in"; // staged outside, renamed into the directory
-    else if (u < 0.7)
-      op["op"] = "rename-out";
-    else if (u < 0.8) {
-      op["op"] = "rename-within";
-      op["to"] = kNames[rng.below(6)];
-    } else if (u < 0.92)
-      op["op"] = "unlink";
-    else if (u < 0.96)
-      op["op"] = "rmdir";
-    else
-      op["op"] = "mkdir";
+    op["to"] = kNames[rng.below(6)];
     op["chunks"] = (int)rng.pick({1, 1, 2, 3});
-    t += rng.pick<int64_t>({0, 1000000, 300000000LL,
-                            (int64_t)interval * 1000000000LL,
-                            (int64_t)interval * 1500000000LL});
     op["at_ns"] = (Json::Int64)t;
     plan["file_ops"].append(op);
+  };
+  auto randomOp = [&]() {
+    double u = rng.unit();
+    std::string o;
+    if (u < 0.3)
+      o = "write"; // create/overwrite, possibly in several writes
+    else if (u < 0.45)
+      o = "rewrite"; // O_TRUNC and write
+    else if (u < 0.6)
+      o = "rename-in"; // staged outside, renamed into the directory
+    else if (u < 0.7)
+      o = "rename-out";
+    else if (u < 0.8)
+      o = "rename-within";
+    else if (u < 0.92)
+      o = "unlink";
+    else if (u < 0.96)
+      o = "rmdir";
+    else
+      o = "mkdir";
+    t += rng.pick<int64_t>({0, 1000000, 300000000LL, ivNs, ivNs * 3 / 2});
+    // a share of the operations lands exactly on a tick instant, where the
+    // main loop, the watcher and the actor are all runnable and the scheduler
+    // decides who goes first
+    if (rng.chance(0.25))
+      snapToTick();
+    addOp(o, kNames[rng.below(6)], pickKind());
+  };
+  bool recreate = rng.chance(0.45);
+  int64_t touchAt = -1;
+  if (recreate) {
+    // the directory is removed and re-created with content while the daemon
+    // runs; a file already present is touched again while the re-scan runs
+    int pre = (int)rng.range(0, 2);
+    for (int i = 0; i < pre; i++)
+      randomOp();
+    t += rng.pick<int64_t>({0, 1000000, ivNs});
+    addOp("rmdir", "a.json", "valid");
+    t += rng.pick<int64_t>({1000000, ivNs, ivNs, 2 * ivNs, ivNs * 3 / 2});
+    if (rng.chance(0.3))
+      snapToTick();
+    addOp("mkdir", "a.json", "valid");
+    int nfiles = (int)rng.range(1, 2);
+    std::vector<std::string> names;
+    for (int i = 0; i < nfiles; i++) {
+      std::string nm = kNames[rng.below(4)];
+      names.push_back(nm);
+      t += rng.pick<int64_t>({0, 0, 1000000});
+      addOp(rng.chance(0.5) ? "write" : "rename-in", nm,
+            rng.chance(0.85) ? "valid" : pickKind());
+    }
+    if (rng.chance(0.8)) {
+      snapToTick();
+      if (rng.chance(0.2))
+        t += ivNs;
+    } else {
+      t += rng.pick<int64_t>({0, 1000000, 300000000LL});
+    }
+    touchAt = t;
+    int touches = (int)rng.range(1, 2);
+    for (int i = 0; i < touches; i++) {
+      std::string o = rng.pick<std::string>(
+          {"rewrite", "rename-in", "rename-in", "unlink", "rename-out", "write"});
+      addOp(o, rng.pick(names), rng.chance(0.85) ? "valid" : pickKind());
+    }
+    int post = (int)rng.range(0, 2);
+    for (int i = 0; i < post; i++)
+      randomOp();
+  } else {
+    for (int i = 0; i < nops; i++)
+      randomOp();
   }
   // enough ticks for the actor plus the convergence window
-  int ticks = (int)(t / ((int64_t)interval * 1000000000LL)) + 2 + 4;
+  int ticks = (int)(t / ivNs) + 2 + 4;
   plan["ticks"] = ticks;
-  plan["policy"] = (int)rng.below(3);
+  plan["policy"] = (int)rng.pick({0, 1, 1, 1, 2});
   plan["pct_depth"] = (int)rng.range(1, 3);
+  if (rng.chance(0.7)) {
+    // aim the preemptions at the instant of one of the file operations
+    const Json::Value& ops = plan["file_ops"];
+    plan["pct_focus_ns"] = touchAt >= 0 && rng.chance(0.75)
+        ? (Json::Int64)touchAt
+        : ops[(Json::ArrayIndex)rng.below(ops.size())]["at_ns"].asInt64();
+    plan["pct_window"] = (int)rng.pick({6, 12, 24, 60});
+  }
   plan["spurious_p"] = rng.pick({0.0, 0.0, 0.02});
   plan["eintr_p"] = rng.pick({0.0, 0.0, 0.05});
+  plan["yield_at_open"] = rng.chance(0.7);
   return plan;
 }
 
@@ -194,6 +259,7 @@ void runC14() {
   };
   R.plan["dropin_dir"] = "/dev/shm/oomd-verif/" + R.prop + "-" + hex16(R.seed) +
       "/dropin";
+  g_yieldAtOpen = R.plan.get("yield_at_open", true).asBool();
   sched::start(R.seed, (sched::Policy)R.plan.get("policy", 0).asInt(),
                R.plan.get("pct_depth", 1).asInt(),
                R.plan.get("spurious_p", 0.0).asDouble());
@@ -204,6 +270,9 @@ void runC14() {
     if (actorStarted)
       return;
     actorStarted = true;
+    if (R.plan.isMember("pct_focus_ns"))
+      sched::focus(R.t0_ns + R.plan["pct_focus_ns"].asInt64(),
+                   R.plan.get("pct_window", 60).asInt());
     --g_bypass; // g_onTick runs inside a Bypass scope; thread creation must
                 // go through the scheduler
     actor = std::make_unique<std::thread>([&]() {
@@ -380,6 +449,22 @@ void runC14() {
       return;
     }
   }
+  for (const auto& op : R.plan["file_ops"]) {
+    std::string o = op["op"].asString();
+    if (o == "rmdir")
+      fired("dir-removed");
+    else if (o == "mkdir")
+      fired("dir-recreated");
+    else if ((o == "write" || o == "rewrite") && op["chunks"].asInt() > 1)
+      fired("multi-write-file");
+    if ((o == "write" || o == "rewrite" || o == "rename-in") &&
+        !kindValid(op["kind"].asString()))
+      fired("invalid-content");
+    if (op["at_ns"].asInt64() % ns(R.interval_s) == 0)
+      probe("op-at-tick-instant");
+  }
+  if (R.plan.isMember("pct_focus_ns") && R.plan["policy"].asInt() == 1)
+    probe("pct-focused-on-op");
   probe("file-ops", (int64_t)R.plan["file_ops"].size());
   probe("active-dropins-at-end", (int64_t)active.size());
   probe("sched-decisions", (int64_t)sched::decisions());
